@@ -633,7 +633,9 @@ pub fn run(ctx: &mut Ctx) {
     let n_cfg = ctx.budget(16_000, 160_000) / ctx.nshards as u64;
     for i in 0..n_cfg {
         let kind = Kind::ALL[(i as usize + ctx.shard) % Kind::ALL.len()];
-        let p = gen_params(&mut rng, kind, 80);
+        // One configuration in eight is LONG (encoded measurement of several hundred elements, beyond 256 and 512):
+        // a binding that is only dropped on a batched / streamed path for long shares is invisible below that.
+        let p = gen_params(&mut rng, kind, if i % 8 == 5 { 900 } else { 80 });
         let mut cfg = gen_cfg(&mut rng, kind, false);
         cfg.aggs = match rng.below(6) {
             0 | 1 => 2,
